@@ -435,3 +435,24 @@ PROPS["C14"] = Prop(
     technique="runtime monitor: executable reference model of the memory-attribute store checked after every call, under gcc ASan+UBSan+LSan",
     level_text="exploration: random register/set/restrict/dup/XML histories against a reference map model, all query variants after every call",
 )
+
+
+PROPS["C15"] = Prop(
+    "C15",
+    [Stage("asan", "c15_cpukinds", "asan", quick=5000, thorough=100000, per_worker_env=xml_backend_env)],
+    rule=("per-PU coverage model (which registrations covered each PU, last forced efficiency), seeded with the kinds found at load: histories of "
+          "4-15 calls (valid and invalid hwloc_cpukinds_register over object cpusets, random subsets, existing kinds minus one PU, PUs outside the "
+          "topology, repeated info pairs, forced efficiencies -5..5; restrict; dup and XML round trip as carriers; refresh); after every call every "
+          "kind is read with get_info and checked: non-empty, pairwise disjoint, union == covered PUs (inside the topology after a restrict), infos "
+          "contain every pair of every registration covering each of its PUs, no exact duplicates, nothing no covering registration provided; "
+          "efficiencies all -1 or identity, forced order respected when all known and distinct; get_by_cpuset on 6 probe sets (kind, single PU, "
+          "two kinds, partially covered, untouched, random, empty/NULL) against the reported partition; ENOENT / EINVAL conventions. "
+          "distinct+non-trivial = class 1: histories with >= 2 successful registrations, >= 2 final kinds and >= 1 carrier or restrict, keyed by "
+          "operation sequence and kind count"),
+    nontrivial_classes=[1], floor=100,
+    assumptions=COMMON_ASSUME + ["HWLOC_CPUKINDS_RANKING is unset (default ranking strategy)",
+                                 "forced efficiencies of kinds that came with the loaded topology are not observable through the API: the forced-order rule is only "
+                                 "evaluated when every kind's last covering registration was issued by the harness"],
+    technique="runtime monitor: per-PU coverage reference model checked after every call, under gcc ASan+UBSan+LSan",
+    level_text="exploration: random register/restrict/dup/XML histories against a per-PU coverage model, all kinds and probe queries checked after every call",
+)
